@@ -410,4 +410,251 @@ theorem valDigits_replicate_zero (z : Nat) : valDigits (List.replicate z '0') = 
     rw [valDigits_append_single, ih]; decide
 
 
+
+/-! ### printing -/
+
+theorem trimEnd_append_ne (c : Char) (A B : List Char) (hB : trimEnd c B ≠ []) :
+    trimEnd c (A ++ B) = A ++ trimEnd c B := by
+  induction A with
+  | nil => simp
+  | cons a A ih =>
+    simp only [List.cons_append]
+    rw [trimEnd_cons, ih]
+    simp [hB]
+
+theorem natDigits_zero : natDigits 0 = ['0'] := by
+  unfold natDigits; simp; rfl
+
+theorem digit_ne_dot (c : Char) (h : isDigit c = true) : c ≠ '.' ∧ c ≠ '-' ∧ c ≠ '+' := by
+  refine ⟨?_, ?_, ?_⟩ <;> (intro e; subst e; revert h; decide)
+
+/-- the characters written for the magnitude (code as it stands) -/
+theorem printAbs_char (compressed lt1 : Bool) (s : Nat) :
+    printAbs false compressed lt1 s =
+      (if (compressed && lt1) = true ∧ s / 10000000000 = 0 then [] else natDigits (s / 10000000000)) ++
+      (if trimEnd '0' (fracDigits 10 (s % 10000000000)) = [] then []
+       else '.' :: trimEnd '0' (fracDigits 10 (s % 10000000000))) := by
+  obtain ⟨_, nI, nne, nh⟩ := natDigits_spec (s / 10000000000)
+  obtain ⟨_, fD, _⟩ := fracDigits_spec 10 (s % 10000000000)
+  generalize hF : fracDigits 10 (s % 10000000000) = F at *
+  generalize hI : natDigits (s / 10000000000) = I at *
+  -- step 1: the optional trimStart
+  have step1 : (if (compressed && lt1) = true then trimStart '0' (fixed10 s) else fixed10 s) =
+      (if (compressed && lt1) = true ∧ s / 10000000000 = 0 then [] else I) ++ '.' :: F := by
+    unfold fixed10
+    rw [hF, hI]
+    by_cases hc : (compressed && lt1) = true
+    · simp only [hc, if_true, true_and]
+      by_cases h0 : s / 10000000000 = 0
+      · simp only [h0, if_true]
+        rw [h0, natDigits_zero] at hI
+        subst hI
+        simp [trimStart, List.dropWhile]
+      · simp only [h0, if_false]
+        cases I with
+        | nil => exact absurd rfl nne
+        | cons y ys =>
+          have : y ≠ '0' := by
+            intro e; subst e
+            exact h0 (nh.1 (by simp))
+          simp [trimStart, List.dropWhile, this]
+    · simp [hc]
+  unfold printAbs
+  simp only [Bool.false_eq_true, if_false]
+  rw [step1]
+  generalize hI0 : (if (compressed && lt1) = true ∧ s / 10000000000 = 0 then [] else I) = I0
+  have hI0d : ∀ c ∈ I0, isDigit c = true := by
+    intro c hc; rw [← hI0] at hc; split at hc
+    · cases hc
+    · exact nI c hc
+  rw [trimEnd_append_barrier '0' '.' I0 F (by decide)]
+  obtain ⟨z, hz, _⟩ := trimEnd_decomp '0' F
+  have hF'd : ∀ c ∈ trimEnd '0' F, isDigit c = true := by
+    intro c hc; apply fD; rw [hz]; simp [hc]
+  generalize trimEnd '0' F = F' at *
+  by_cases hF' : F' = []
+  · subst hF'
+    simp only [if_true, List.append_nil]
+    rw [trimEnd_append_all '.' I0 ['.'] (by decide)]
+    exact trimEnd_eq_self '.' I0 (fun x hx => (digit_ne_dot x (hI0d x hx)).1)
+  · simp only [hF', if_false]
+    have e : trimEnd '.' F' = F' := trimEnd_eq_self '.' F' (fun x hx => (digit_ne_dot x (hF'd x hx)).1)
+    have e2 : trimEnd '.' ('.' :: F') = '.' :: F' := by rw [trimEnd_cons, e]; simp [hF']
+    rw [trimEnd_append_ne '.' I0 ('.' :: F') (by rw [e2]; simp), e2]
+
+theorem takeWhile_digits (A B : List Char) (hA : ∀ c ∈ A, isDigit c = true)
+    (hB : B = [] ∨ ∃ r, B = '.' :: r) :
+    (A ++ B).takeWhile isDigit = A ∧ (A ++ B).dropWhile isDigit = B := by
+  induction A with
+  | nil =>
+    rcases hB with rfl | ⟨r, rfl⟩
+    · simp
+    · have : isDigit '.' = false := by decide
+      simp [List.takeWhile, List.dropWhile, this]
+  | cons a A ih =>
+    have ha := hA a (by simp)
+    have := ih (fun c hc => hA c (by simp [hc]))
+    simp [List.takeWhile, List.dropWhile, ha, this]
+
+theorem parseBody_digits (neg : Bool) (I F : List Char) (hI : ∀ c ∈ I, isDigit c = true)
+    (hF : ∀ c ∈ F, isDigit c = true) (hne : I ≠ [] ∨ F ≠ []) :
+    parseBody neg (I ++ (if F = [] then [] else '.' :: F)) = some { neg := neg, int := I, frac := F, exp := 0 } := by
+  unfold parseBody
+  by_cases hF0 : F = []
+  · subst hF0
+    have hI0 : I ≠ [] := by simpa using hne
+    have ⟨t1, t2⟩ := takeWhile_digits I [] hI (Or.inl rfl)
+    simp only [if_true, List.append_nil] at *
+    simp only [t1, t2, hI0, false_and, if_false]
+    simp [parseExp]
+  · have ⟨t1, t2⟩ := takeWhile_digits I ('.' :: F) hI (Or.inr ⟨F, rfl⟩)
+    have ⟨u1, u2⟩ := takeWhile_digits F [] hF (Or.inl rfl)
+    simp only [List.append_nil] at u1 u2
+    simp only [hF0, if_false, t1, t2]
+    simp [u1, u2, hF0, parseExp]
+
+
+theorem divRoundEven_close (num den : Nat) (hd : 0 < den) :
+    2 * num ≤ 2 * (divRoundEven num den * den) + den ∧ 2 * (divRoundEven num den * den) ≤ 2 * num + den := by
+  unfold divRoundEven
+  have h1 := Nat.div_add_mod num den
+  have h2 := Nat.mod_lt num hd
+  generalize num / den = q at *
+  generalize num % den = r at *
+  have e : den * q = q * den := Nat.mul_comm _ _
+  have e2 : (q + 1) * den = q * den + den := by rw [Nat.add_mul]; simp
+  simp only
+  split
+  · omega
+  · split
+    · rw [e2]; omega
+    · split
+      · omega
+      · rw [e2]; omega
+
+theorem div_eq_div_of_cross (a b c d : Rat) (hb : b ≠ 0) (hd : d ≠ 0) (h : a * d = c * b) : a / b = c / d := by
+  grind
+
+theorem rat_mul_den (x : Rat) : x * (x.den : Rat) = (x.num : Rat) := by
+  have h : x = (x.num : Rat) / (x.den : Rat) := by
+    rw [← Rat.mkRat_eq_div, Rat.mkRat_self]
+  have hd : (x.den : Rat) ≠ 0 := by
+    have := x.den_pos
+    intro e; rw [Rat.natCast_eq_zero_iff] at e; omega
+  conv => lhs; arg 1; rw [h]
+  exact Rat.div_mul_cancel hd
+
+theorem absQ_mul_den (x : Rat) : absQ x * (x.den : Rat) = (x.num.natAbs : Rat) := by
+  have h := rat_mul_den x
+  unfold absQ
+  split
+  · rename_i hx
+    have hn : x.num < 0 := by
+      have := @Rat.num_nonneg x
+      by_cases h1 : 0 ≤ x.num
+      · have := this.1 h1; grind
+      · omega
+    have e : ((x.num.natAbs : Nat) : Rat) = ((-(x.num) : Int) : Rat) := by
+      rw [← Rat.intCast_natCast]; congr 1; omega
+    rw [e, Rat.intCast_neg, ← h]; grind
+  · rename_i hx
+    have hn : 0 ≤ x.num := Rat.num_nonneg.2 (by grind)
+    have e : ((x.num.natAbs : Nat) : Rat) = ((x.num : Int) : Rat) := by
+      rw [← Rat.intCast_natCast]; congr 1; omega
+    rw [e, h]
+
+theorem round10_close (x : Rat) : 2 * absQ (round10 x - x) * 10000000000 ≤ 1 := by
+  have hd : 0 < x.den := x.den_pos
+  have hdq : (0 : Rat) < (x.den : Rat) := Rat.natCast_pos.2 hd
+  obtain ⟨c1, c2⟩ := divRoundEven_close (x.num.natAbs * 10000000000) x.den hd
+  have hX := absQ_mul_den x
+  -- cast the two natural-number inequalities
+  have c1' : 2 * ((x.num.natAbs : Nat) : Rat) * 10000000000 ≤ 2 * ((scaled10 x : Nat) : Rat) * (x.den : Rat) + (x.den : Rat) := by
+    have := Rat.natCast_le_natCast.2 c1
+    simp only [Rat.natCast_add, Rat.natCast_mul] at this
+    unfold scaled10; simp at this ⊢; grind
+  have c2' : 2 * ((scaled10 x : Nat) : Rat) * (x.den : Rat) ≤ 2 * ((x.num.natAbs : Nat) : Rat) * 10000000000 + (x.den : Rat) := by
+    have := Rat.natCast_le_natCast.2 c2
+    simp only [Rat.natCast_add, Rat.natCast_mul] at this
+    unfold scaled10; simp at this ⊢; grind
+  rw [← hX] at c1' c2'
+  unfold round10
+  simp only
+  generalize ((scaled10 x : Nat) : Rat) = s at *
+  have hsv : s / 10000000000 * 10000000000 = s := Rat.div_mul_cancel (by decide)
+  generalize hv : s / 10000000000 = v at *
+  generalize (x.den : Rat) = d at *
+  -- the goal, multiplied by d
+  apply Rat.le_of_mul_le_mul_right _ hdq
+  unfold absQ at *
+  clear c1 c2
+  split at hX <;> rename_i hx
+  · simp only [hx, if_true] at c1' c2' ⊢
+    clear hX
+    split
+    · have e : 2 * -(-v - x) * 10000000000 * d = 2 * ((v * 10000000000) * d - (-x * d) * 10000000000) := by grind
+      rw [e, hsv]; grind
+    · have e : 2 * (-v - x) * 10000000000 * d = 2 * ((-x * d) * 10000000000 - (v * 10000000000) * d) := by grind
+      rw [e, hsv]; grind
+  · simp only [hx, if_false] at c1' c2' ⊢
+    clear hX
+    split
+    · have e : 2 * -(v - x) * 10000000000 * d = 2 * ((x * d) * 10000000000 - (v * 10000000000) * d) := by grind
+      rw [e, hsv]; grind
+    · have e : 2 * (v - x) * 10000000000 * d = 2 * ((v * 10000000000) * d - (x * d) * 10000000000) := by grind
+      rw [e, hsv]; grind
+/-- the digit lists `printAbs` writes, and their value -/
+theorem print_digits_value (cl : Bool) (s : Nat) (I0 F' : List Char)
+    (hI : I0 = if cl = true ∧ s / 10000000000 = 0 then [] else natDigits (s / 10000000000))
+    (hF : F' = trimEnd '0' (fracDigits 10 (s % 10000000000))) :
+    (∀ c ∈ I0, isDigit c = true) ∧ (∀ c ∈ F', isDigit c = true) ∧ F'.getLast? ≠ some '0' ∧ F'.length ≤ 10 ∧
+    valDigits (I0 ++ F') * 10000000000 = s * 10 ^ F'.length ∧
+    (I0 = [] → s / 10000000000 = 0) ∧ (I0 = ['0'] → s / 10000000000 = 0) ∧ (F' = [] → s % 10000000000 = 0) ∧
+    (I0.head? = some '0' → I0 = ['0']) := by
+  obtain ⟨nv, nI, nne, nh⟩ := natDigits_spec (s / 10000000000)
+  obtain ⟨fv, fD, fl⟩ := fracDigits_spec 10 (s % 10000000000)
+  obtain ⟨z, hz, hlast⟩ := trimEnd_decomp '0' (fracDigits 10 (s % 10000000000))
+  rw [← hF] at hz hlast
+  have hmod : s % 10000000000 % 10 ^ 10 = s % 10000000000 := Nat.mod_eq_of_lt (Nat.mod_lt _ (by decide))
+  rw [hmod] at fv
+  have hlen : F'.length + z = 10 := by
+    have := congrArg List.length hz
+    simp only [List.length_append, List.length_replicate] at this
+    omega
+  have hvF : valDigits F' * 10 ^ z = s % 10000000000 := by
+    rw [← fv, hz, valDigits_append, valDigits_replicate_zero]; simp
+  have hvI : valDigits I0 = s / 10000000000 := by
+    rw [hI]; split
+    · rename_i h; rw [h.2]; rfl
+    · exact nv
+  have hP : (10000000000 : Nat) = 10 ^ F'.length * 10 ^ z := by
+    rw [← Nat.pow_add, hlen]
+  refine ⟨?_, ?_, hlast, by omega, ?_, ?_, ?_, ?_, ?_⟩
+  · intro c hc; rw [hI] at hc; split at hc
+    · cases hc
+    · exact nI c hc
+  · intro c hc; apply fD; rw [hz]; simp [hc]
+  · rw [valDigits_append, hvI]
+    have hs := Nat.div_add_mod s 10000000000
+    rw [← hvF] at hs
+    generalize s / 10000000000 = ip at *
+    generalize valDigits F' = v at *
+    rw [← hs]
+    rw [hP]
+    generalize 10 ^ F'.length = a
+    generalize 10 ^ z = b
+    grind
+  · intro h0; rw [hI] at h0; split at h0
+    · rename_i h; exact h.2
+    · exact absurd h0 nne
+  · intro h0; rw [← hvI, h0]; rfl
+  · intro h0; rw [← hvF, h0]; simp [valDigits]
+  · intro hh; rw [hI] at hh ⊢; split at hh
+    · cases hh
+    · rename_i hc
+      have := nh.1 hh
+      simp only [hc, if_false]
+      rw [this, natDigits_zero]
+
+
 end Grass.Num
